@@ -43,7 +43,10 @@ def setup(ctx):
                 if shift:
                     ws = sh(ws)
                     wn = sh(wn) if wn is not None else None
-                ok = type(r) is type(self) and rows_close(r.signal, ws) and ((r.noise is None) == (wn is None)) and (wn is None or rows_close(r.noise, wn))
+                # at 1e-12 of the spectrum's scale (the library calls the same FFT): a quadrature 1e-9 below the other one is data, not rounding noise
+                def q_close(u, v):
+                    return rows_close(u, v, 1e-12)
+                ok = type(r) is type(self) and q_close(r.signal, ws) and ((r.noise is None) == (wn is None)) and (wn is None or q_close(r.noise, wn))
                 ok = ok and getattr(r, "n_pol", None) == getattr(self, "n_pol", None) and r.len() == self.len()
                 ctx.check("call.post", ok, f"x({domain!r}, shift={shift}) is not the row-wise {'fft' if f is fft else 'ifft'} of signal and noise "
                                            f"({type(self).__name__}, shape {self.signal.shape}, noise={'yes' if self.noise is not None else 'no'})")
@@ -108,7 +111,12 @@ def make(rng, cls, n, dtype, noise):
     def arr(shape):
         a = rng.normal(0, 1, shape)
         if dtype == "complex":
-            a = a + 1j * rng.normal(0, 1, shape)
+            q = rng.normal(0, 1, shape)
+            if rng.integers(5) == 0:         # one quadrature far below the other (a carrier with a 1e-9 rad phase modulation): it is data, not rounding noise
+                q = q * 10 ** rng.uniform(-11, -8.5)
+                if rng.integers(2):
+                    a, q = q, a
+            a = a + 1j * q
         elif dtype == "int":
             a = rng.integers(-9, 10, shape)
         return a * (1 if dtype == "int" else 10 ** rng.uniform(-3, 3))
